@@ -210,6 +210,7 @@ def run_correspondence(ctx, pid, tier, seed, budget=None, outname="run"):
         env["VERIF_BUDGET"] = str(budget)
     # corpus lives in VERIF/corpus; harness looks at <out>/../../corpus — pass explicitly
     env["VERIF_CORPUS"] = os.path.join(VERIF, "corpus")
+    env["VERIF_KERNELS"] = os.path.join(LEAN, "Secp", "Gen", "kernels.json")
     rc, out, err, dt = run([ctx["harness_bin"], PROPS[pid].get("generator", pid), tier, str(seed), d], env=env, timeout=3600)
     if rc != 0:
         return None, "harness run failed: " + (out + err)[-3000:]
@@ -306,7 +307,7 @@ def do_replay(pid, path):
     os.makedirs(d)
     opsfile = os.path.join(d, "in.txt")
     open(opsfile, "w").write("\n".join(c["op"] for c in cases) + "\n")
-    rc, out, err, _ = run([ctx["harness_bin"], "replay", "quick", "0", d, opsfile], env=GOENV, timeout=600)
+    rc, out, err, _ = run([ctx["harness_bin"], "replay", "quick", "0", d, opsfile], env=dict(GOENV, VERIF_KERNELS=os.path.join(LEAN, "Secp", "Gen", "kernels.json")), timeout=600)
     os.remove(ctx["harness_bin"])
     if rc != 0:
         log(err)
